@@ -11,6 +11,9 @@ CLAIMED = {
  "C02": ("round-trip property testing (proptest): own SqPack/deflate (miniz_oxide) encoder -> Physis extraction -> byte comparison / header validity predicate",
          "Generated-input search over entry kinds, block splits and per-block raw/stored/fixed/dynamic deflate streams; extracted bytes compared with the packed content (model entries through a validity predicate over the synthesised header).",
          "Trusts miniz_oxide as an independent deflater (self-checked) and the harness's entry encoder.", "5/C02"),
+ "C03": ("model-based property testing (proptest) + bounded-exhaustive enumeration: generated chunk sequences / patch chains applied by Physis to a scratch tree, compared with an in-memory file-system model of the reference ZiPatch semantics",
+         "Generated-input search over chunk sequences and patch chains plus all sequences of length <= 2 (<= 3 thorough) over a concrete 12-chunk alphabet; resulting tree compared file-by-file with a reference model.",
+         "Trusts the harness's ZiPatch encoder and file-system model (written from the format and XIVLauncher's semantics); directory effects asserted only as required <= actual <= allowed.", "5/C03"),
  "C05": ("round-trip property testing (proptest): own big-endian EXH/EXD/EXL encoder -> Physis read_row / sheet lookup through a generated archive -> comparison with the generated cell values",
          "Generated-input search over schemas (all 19 column types, arbitrary offsets), row sets (sub-rows, string heaps, extreme values) and archive layouts; every cell compared with the stored value.",
          "Trusts the harness's Excel encoder (written from the format description, junk-filled gaps).", "5/C05"),
